@@ -7,7 +7,7 @@
 From Coq Require Import List NArith ZArith Arith Bool Strings.String Lia.
 From V Require Import Base.Bytes Base.Res Model.Strings Model.Ast Model.Inlines
      Proofs.InlinesProofs Proofs.InlinesTotal2 Proofs.InlinesTotal2Sites Proofs.InlinesTotal2Walk
-     Proofs.InlinesTotal3Emb Proofs.InlinesTotal3Step Proofs.InlinesTotal3Walk.
+     Proofs.InlinesTotal2Pe Proofs.InlinesTotal3Emb Proofs.InlinesTotal3Pe Proofs.InlinesTotal3Step Proofs.InlinesTotal3Walk.
 Import ListNotations.
 Local Open Scope list_scope.
 
@@ -24,3 +24,17 @@ Proof.
   - exact Hr.
   - exact I.
 Qed.
+
+Lemma process_emphasis_nopanic o inp s n0 items ds bottom site :
+  (- coloff s <= Z.of_nat (pos s))%Z ->
+  Forall (fun d => dchar_ok o (d_char d) = true) ds ->
+  emb (map ED ds) items -> uniq items -> fresh items n0 ->
+  process_emphasis o inp s n0 items ds bottom <> Panic site.
+Proof. intros C D E U F H. eapply process_emphasis_S; eassumption. Qed.
+
+(* ***a**b* *[c*](u) ~~d~~ : overlapping emphasis, a link whose text closes an emphasis opened outside, strikethrough *)
+Definition ex3_input : bytes :=
+  [x2a; x2a; x2a; x61; x2a; x2a; x62; x2a; x20; x2a; x5b; x63; x2a; x5d; x28; x75; x29; x20; x7e; x7e; x64; x7e; x7e].
+Lemma ex3_premises :
+  rtrim_slice ex3_input = ex3_input /\ first_line_not_blank ex3_input = true /\ line_endings ex3_input < 1.
+Proof. vm_compute. repeat split; try reflexivity. Qed.
